@@ -265,14 +265,38 @@ def save_replay(prop, rec, prefix='viol'):
     return path
 
 
+def library_failure_record(e, modname, where):
+    """An exception raised INSIDE the library (below the last harness frame) that no part of the check expects: on the
+    unchanged tree no shard, replay or witness raises (seed sweeps), so this is a behaviour change of the code under
+    test - the calls the property is about do not return their result any more.  Returns a violation record, or None
+    when the exception comes from the harness itself (a harness error, exit 2)."""
+    tb = traceback.extract_tb(e.__traceback__)
+    lib = os.path.join(REPO.rstrip('/'), 'xmlschema') + os.sep
+    last_harness = max([i for i, fr in enumerate(tb) if fr.filename.startswith(HERE + os.sep)] or [-1])
+    below = [fr for fr in tb[last_harness + 1:] if fr.filename.startswith(lib)]
+    if not below or isinstance(e, (RecursionError, MemoryError)):
+        return None
+    site = below[-1]
+    return {'kind': 'library_call_fails_inside_check', 'input': dict(where, module=modname),
+            'expected': 'the library calls made by the check return (or raise what the check allows for)',
+            'observed': '%s: %s at %s:%s (%s)' % (type(e).__name__, str(e)[:200], site.filename[len(lib):], site.lineno,
+                                                  site.name),
+            'classes': [], 'key': 'crash|%s|%s' % (modname, json.dumps(where, default=repr, sort_keys=True))}
+
+
 def _worker(args):
     modname, desc = args
     import importlib
     mod = importlib.import_module(modname)
     try:
         return mod.run_shard(desc)
-    except Exception:
+    except Exception as e:
         st = Stats()
+        rec = library_failure_record(e, modname, {'shard': json.loads(json.dumps(desc, default=repr))})
+        if rec is not None:
+            st.violations.append(rec)
+            st.info['library_failure_trace'] = traceback.format_exc()[-3000:]
+            return st
         st.info['harness_error'] = traceback.format_exc()[-3000:]
         return st
 
